@@ -84,6 +84,12 @@ type parser struct {
 }
 
 func (p *parser) peek() tok { return p.toks[p.p] }
+func (p *parser) peekAt(k int) tok {
+	if p.p+k < len(p.toks) {
+		return p.toks[p.p+k]
+	}
+	return p.toks[len(p.toks)-1]
+}
 func (p *parser) next() tok { t := p.toks[p.p]; p.p++; return t }
 func (p *parser) accept(op string) bool {
 	if p.peek().kind == "op" && p.peek().text == op {
@@ -116,7 +122,7 @@ func parseExpr(s string) (*Expr, error) {
 }
 
 func (p *parser) parseTop() (*Expr, error) {
-	if t := p.peek(); t.kind == "id" && (t.text == "forall" || t.text == "exists") {
+	if t := p.peek(); t.kind == "id" && (t.text == "forall" || t.text == "exists" || (t.text == "sum" && p.peekAt(1).kind == "id" && p.peekAt(2).kind == "id" && p.peekAt(2).text == "in")) {
 		p.next()
 		v := p.next()
 		if v.kind != "id" {
@@ -317,7 +323,7 @@ func (p *parser) parseMul() (*Expr, error) {
 }
 
 func (p *parser) parseUnary() (*Expr, error) {
-	if t := p.peek(); t.kind == "id" && (t.text == "forall" || t.text == "exists") {
+	if t := p.peek(); t.kind == "id" && (t.text == "forall" || t.text == "exists" || (t.text == "sum" && p.peekAt(1).kind == "id" && p.peekAt(2).kind == "id" && p.peekAt(2).text == "in")) {
 		return p.parseTop() // a quantifier extends as far to the right as possible
 	}
 	if p.accept("!") {
@@ -476,7 +482,7 @@ func (e *Expr) String() string {
 			as = append(as, a.String())
 		}
 		return e.Name + "(" + strings.Join(as, ", ") + ")"
-	case "forall", "exists":
+	case "forall", "exists", "sum":
 		return e.Op + " " + e.Var + " :: " + e.Args[0].String()
 	case "ite":
 		return "(" + e.Args[0].String() + " ? " + e.Args[1].String() + " : " + e.Args[2].String() + ")"
